@@ -47,3 +47,20 @@ def diffusion(a):
 
 def dirichlet(a):
     return _fit(Dirichlet(n_iter=a['n_iter']), a)
+
+
+def refit_same_array(a):
+    """Two fits (n_iter = a['n_iters'][0], then [1]) given ONE caller-owned float64 array of temperatures, as a user checking
+    convergence would do; reference = the second fit given a fresh copy of the original array."""
+    cls = Diffusion if a['algo'] == 'diffusion' else Dirichlet
+    m = mk_matrix(a['m'])
+    arr = np.array(a['values'], dtype=float)
+    before = arr.copy()
+
+    def mk(n_iter):
+        return cls(n_iter=n_iter, damping_factor=a['damping']) if cls is Diffusion else cls(n_iter=n_iter)
+    first = mk(a['n_iters'][0]).fit(m, values=arr).values_.copy()
+    second = mk(a['n_iters'][1]).fit(m, values=arr).values_.copy()
+    ref = mk(a['n_iters'][1]).fit(m, values=before.copy()).values_.copy()
+    return {'first': _vec(first), 'second': _vec(second), 'reference': _vec(ref), 'array_before': _vec(before),
+            'array_after': _vec(arr)}
